@@ -61,6 +61,28 @@ def getTokenID : PType → Tok → IdR
   | .gcp d, t => if !t.parses then .err else if d then .id t.sha else .id t.derived
   | .k8ssa, _ | .acme, _ | .scep, _ => .err
 
+/-- What a provisioner's configuration says (ca.json or the admin database; /repo/authority/provisioners.go
+    `ProvisionerToCertificates` must carry these fields over unchanged). -/
+inductive PKind where
+  | jwk | x5c | sshpop | nebula | oidc | azure | aws | gcp | k8ssa | acme | scep
+  deriving Repr, DecidableEq
+
+structure PCfg where
+  kind : PKind
+  disableTrustOnFirstUse : Bool
+  disableCustomSANs : Bool       -- unrelated to token reuse; present because configurations carry it
+  deriving Repr, DecidableEq
+
+/-- the token-id behaviour of a configured provisioner: only `disableTrustOnFirstUse` matters, and only
+    for the three cloud-identity types -/
+def ptypeOf (c : PCfg) : PType :=
+  match c.kind with
+  | .jwk => .jwk | .x5c => .x5c | .sshpop => .sshpop | .nebula => .nebula | .oidc => .oidc
+  | .azure => .azure c.disableTrustOnFirstUse
+  | .aws => .aws c.disableTrustOnFirstUse
+  | .gcp => .gcp c.disableTrustOnFirstUse
+  | .k8ssa => .k8ssa | .acme => .acme | .scep => .scep
+
 /-- `Authority.UseToken`: the key under which the token is recorded; `none` = nothing is recorded
     (every `GetTokenID` error is ignored). -/
 def useKey (r : IdR) (sha : Str) : Option Str :=
